@@ -5,7 +5,7 @@ from . import _corecommon as cc
 from ._corecommon import LEVEL, REAL, STUB, SHRINK, LEVEL_NOTE, simplify  # noqa
 
 ID = "C05"
-TIERS = {"quick": {"runs": 64}, "thorough": {"runs": 1500}}
+TIERS = {"quick": {"runs": 64}, "thorough": {"runs": 600}}
 WANT = ("c05",)
 RULE = ("one case = one seeded whole-core scenario with a sparse victim port and adversarial ports (continuous same-bank/same-row stream, "
         "alternating rows, one direction only); per command: cycles from first offer to acceptance and from acceptance to its data strobe / data must "
